@@ -16,6 +16,9 @@ CHECKS = {
  "C08": ("metamorphic two-run monitor (permutation, replication, weights, strand, row order) + Go race detector over a schedule-perturbing, event-recording DistModel wrapper with an offline exactly-once checker + exhaustive enumeration of k-th-call model faults with a goroutine-dump deadlock probe",
          "Held on the executions observed: relations within 1e-9 on well-conditioned inputs; bit-identical matrices for 6 worker counts x GOMAXPROCS x perturbation plans with zero race reports; every fault position of small matrices returns the injected error without hanging. fault_enumeration for the fault part, exploration for the rest.",
          "Trusted: Go race detector (finds only races on the interleavings driven), the deadlock classifier over runtime.Stack, the C07 oracle for the ill-conditioned filter.", "1/C08"),
+ "C09": ("three independent oracles over every call of the pairwise aligner (own scorer of the returned rows, Gotoh local dynamic program, brute-force enumeration of all local alignments for tiny inputs) on exhaustively enumerated small pairs and random / related / border pairs (reference-model runtime monitor)",
+         "Held on the pairs executed: all 14400 ordered pairs over {A,C,G} (lengths 1..4) x 10 schemes, all pairs over {A,W,T}, {E,Z,P}, {E,Q,L,F} under DNAfull / BLOSUM62 gap schemes (exhaustive, each also brute-forced), and random nucleotide / protein pairs up to 60 (250) residues under random dyadic schemes: rows valid, substrings as reported, counts consistent, MaxScore == score of the returned rows == optimum whenever the optimum is positive, inputs unchanged.",
+         "Trusted: mon/c09/ref.go (Gotoh DP and brute force, which must agree with each other), exact dyadic float arithmetic, the published EDNAFULL / BLOSUM62 tables typed in the monitor (compared with the tables of the build through the hook VerifSubstMatrix). Empty sequences and nucleotide-vs-protein pairs are outside the quantifier.", "1/C09"),
 }
 NOT_YET = {}
 def main():
